@@ -33,22 +33,33 @@ structure Link where
   pending : List Change
   inflight : List (List Change)
   copy : View
+  beats : List Change := []       -- `beat_instances_map`: queued heartbeats of HTTP instances (flushed every 15 s)
 
 inductive Step where
   | client (c : Change)      -- a registration / deregistration / update arrives at the owner
   | flush                    -- the delay elapses: the pending changes become one batch (coalesced)
   | deliver                  -- the oldest batch in flight is applied by the receiver
+  | beat (k : Key)           -- a heartbeat of a registered instance reaches the owner (`UpdateInstanceBeat`)
+  | beatFlush                -- the 15 s heartbeat flush: the queued heartbeats become one update batch
 
 def Link.step (l : Link) : Step → Link
-  | .client c => { l with own := upd l.own c, pending := l.pending ++ [c] }
+  | .client c =>
+    -- `delay_notify`: the change is queued and a queued heartbeat of the same instance is discarded
+    { l with own := upd l.own c, pending := l.pending ++ [c], beats := l.beats.filter (·.key != c.key) }
   | .flush => if l.pending.isEmpty then l else { l with pending := [], inflight := l.inflight ++ [coalesce l.pending] }
   | .deliver =>
     match l.inflight with
     | [] => l
     | b :: rest => { l with inflight := rest, copy := applyAll l.copy b }
+  | .beat k =>
+    -- `delay_beat_notify`: only for a registered instance, and only if no change of it is waiting for the next flush
+    match l.own k with
+    | none => l
+    | some v => if l.pending.any (·.key == k) then l else { l with beats := l.beats.filter (·.key != k) ++ [⟨k, some v⟩] }
+  | .beatFlush => if l.beats.isEmpty then l else { l with beats := [], inflight := l.inflight ++ [l.beats] }
 
 def Link.run (l : Link) (ss : List Step) : Link := ss.foldl Link.step l
 
-def Link.quiescent (l : Link) : Prop := l.pending = [] ∧ l.inflight = []
+def Link.quiescent (l : Link) : Prop := l.pending = [] ∧ l.inflight = [] ∧ l.beats = []
 
 end RNacos.Sync
